@@ -313,8 +313,8 @@ theorem P.markerTypeOf_threads (p : P) (ty : MType) (r : P × Nat) (h : p.marker
       · cases h
         exact P.handleForCategory_threads _ _ _
 
-theorem P.marker_grow (p : P) (t : Nat) (ty : MType) (name : Nat) (strs : List Nat) :
-    Grow p (p.marker t ty name strs).1 := by
+theorem P.marker_grow (p : P) (t : Nat) (ty : MType) (name : Nat) (strs : List Nat) (tm : MTiming) :
+    Grow p (p.marker t ty name strs tm).1 := by
   unfold P.marker
   split
   · exact Grow.refl p
@@ -404,6 +404,14 @@ theorem step_grow (p : P) (op : Op) : Grow p (step p op).1 := by
     · split
       · split <;> exact Grow.of_eq rfl
       · exact Grow.refl p
+  | addKernelMapping a b c d =>
+    simp only [step]
+    split
+    · split <;> exact Grow.of_eq rfl
+    · exact Grow.refl p
+  | removeKernelMapping a => exact Grow.of_eq rfl
+  | removeMapping a b => simp only [step]; split <;> exact Grow.of_eq rfl
+  | clearMappings a => simp only [step]; split <;> exact Grow.of_eq rfl
   | string s => exact Grow.of_eq rfl
   | category a b => simp only [step]; exact Grow.of_eq (by simp)
   | subcategory a b =>
@@ -421,7 +429,7 @@ theorem step_grow (p : P) (op : Op) : Grow p (step p op).1 := by
   | sameSample t => simp only [step]; exact p.sameSample_grow t
   | allocSample t st => simp only [step]; exact p.allocSample_grow t st
   | markerType a b c => simp only [step]; split <;> exact Grow.of_eq rfl
-  | marker t ty n strs => simp only [step]; exact p.marker_grow t ty n strs
+  | marker t ty n strs tm => simp only [step]; exact p.marker_grow t ty n strs tm
   | markerStack t m st => simp only [step]; exact p.markerStack_grow t m st
   | counter a => simp only [step]; split <;> exact Grow.of_eq rfl
   | counterSample a => simp only [step]; split <;> exact Grow.of_eq rfl
